@@ -8,6 +8,7 @@ package main
 import (
 	"bytes"
 	"fmt"
+	"io"
 	"net/http"
 	"net/http/httptest"
 	"strings"
@@ -122,10 +123,15 @@ type c14Req struct {
 	method, path string
 	body         int
 	nat          string
+	chunked      bool // sent with Transfer-Encoding: chunked (the server sees ContentLength -1)
 }
 
 func (r c14Req) String() string {
-	return fmt.Sprintf("%s %s body=%s nat=%q", r.method, r.path, bodyName[r.body], r.nat)
+	te := ""
+	if r.chunked {
+		te = " chunked"
+	}
+	return fmt.Sprintf("%s %s body=%s nat=%q%s", r.method, r.path, bodyName[r.body], r.nat, te)
 }
 
 type c14Result struct {
@@ -164,6 +170,12 @@ func (cw *c14World) do(mux *http.ServeMux, rq c14Req) *c14Result {
 		return res
 	}
 	r.RemoteAddr = "192.0.2.7:4321"
+	if rq.chunked {
+		// what net/http hands to a handler for a request without Content-Length
+		r.ContentLength = -1
+		r.TransferEncoding = []string{"chunked"}
+		r.Body = io.NopCloser(body)
+	}
 	if rq.nat != "-" {
 		r.Header.Set("Snowflake-NAT-Type", rq.nat)
 	}
@@ -190,14 +202,16 @@ func init() {
 			for i := 0; i < n; i++ {
 				var rq c14Req
 				if x.Cfg["alphabet"] == "reduced" {
-					red := []c14Req{{"POST", "/client", bodyValid, "-"}, {"POST", "/client", bodyLegacy, "foo"}, {"POST", "/client", bodyLegacy, "unknown"}, {"POST", "/proxy", bodyValid, "-"}, {"POST", "/answer", bodyValid, "-"},
-						{"GET", "/amp/client/", bodyValid, "-"}, {"POST", "/proxy", body100001, "-"}, {"GET", "/debug", bodyEmpty, "-"}, {"POST", "/client", bodyGarbage, "-"}, {"OPTIONS", "/client", bodyEmpty, "-"}}
+					red := []c14Req{{"POST", "/client", bodyValid, "-", false}, {"POST", "/client", bodyLegacy, "foo", false}, {"POST", "/client", bodyLegacy, "unknown", false}, {"POST", "/proxy", bodyValid, "-", false}, {"POST", "/answer", bodyValid, "-", false},
+						{"GET", "/amp/client/", bodyValid, "-", false}, {"POST", "/proxy", body100001, "-", false}, {"GET", "/debug", bodyEmpty, "-", false}, {"POST", "/client", bodyGarbage, "-", false}, {"OPTIONS", "/client", bodyEmpty, "-", false},
+						{"POST", "/client", bodyValid, "-", true}, {"POST", "/answer", bodyValid, "-", true}}
 					rq = red[vs.Choose("req", len(red))]
 				} else {
 					rq.method = c14Methods[vs.Choose("method", len(c14Methods))]
 					rq.path = c14Paths[vs.Choose("path", len(c14Paths))]
 					rq.body = vs.Choose("body", nBodies)
 					rq.nat = c14NAT[vs.Choose("nat", len(c14NAT))]
+					rq.chunked = vs.Choose("chunked", 2) == 1
 				}
 				reqs = append(reqs, rq)
 			}
